@@ -323,9 +323,13 @@ func (s *MemoryBackend) read(ctx context.Context, store string, filter storage.R
 		}
 	}
 
-	if from <= len(matches) {
-		matches = matches[from:]
+	// An offset outside the result set cannot come from a token issued for this query: reject it instead of
+	// panicking on a negative offset or silently starting over from the first tuple.
+	if from < 0 || from > len(matches) {
+		return nil, storage.ErrInvalidContinuationToken
 	}
+
+	matches = matches[from:]
 
 	to := 0 // fetch everything
 	if options != nil {
